@@ -71,7 +71,11 @@ def _norm(x):
 def run_impl(family, call):
     base, log = base_ctx()
     del log[:]
-    ctx, defs = resfam.build_chain(family, base, ordered=False)
+    try:
+        ctx, defs = resfam.build_chain(family, base, ordered=False)
+    except Exception as e:   # noqa
+        # (a registration that is refused is an outcome like any other)
+        return ['exc', type(e).__name__, 'while registering: %s' % e], []
     c = ctx.create_child_context()
     if call.get('via') == 'api':
         args = [yutils.NO_VALUE if isinstance(a, dict) and a.get('skip')
@@ -321,7 +325,10 @@ def family_and_call(draw):
         if via == 'api':
             return v
         form = draw(st.sampled_from(['var', 'var', 'tick', 'const']))
-        if form == 'const' and allow_const and not isinstance(v, dict):
+        if form == 'const' and allow_const and not isinstance(v, dict) and \
+                not (isinstance(v, (int, float)) and v < 0):
+            # (a negative numeral is not a constant: it is unary minus
+            # applied to one)
             return {'lit': v}
         if form == 'tick':
             tick_id[0] += 1
@@ -380,6 +387,7 @@ def family_and_call(draw):
     # (members without such a spelling stay assembled)
     family['decl'] = draw(st.sampled_from(['assembled', 'signature',
                                            'shared-callable',
+                                           'shared-callable-flags',
                                            'signature-reregistered']))
     return {'kind': 'call', 'family': family, 'call': call}
 
@@ -408,5 +416,5 @@ def run(run):
     _engine()
     base_ctx()
     k = 16
-    n = (60000 if full else 4000) // k
+    n = (60000 if full else 12000) // k
     run.shards(_shard, [(n, i) for i in range(k)])
